@@ -28,12 +28,246 @@ def cases(draw, tier):
     pool = [["redo-targets"], ["redo-sources"], ["redo-ood"], ["redo-ifchange", "other"], ["redo", "third"],
             ["redo-ifchange", "other", "third"], ["redo-log", "--no-pretty", "slow"]]
     others = [pool[draw(st.integers(0, len(pool) - 1))] for _ in range(draw(st.integers(1, 5)))]
-    return {"project": proj, "hold": True, "invs": [{"argv": build, "cwd": "", "env": {} if draw(st.integers(0, 1)) else
-                                                     {"REDO_LOG": "0"}, "jobserver": None}],
+    kind = draw(st.sampled_from(["stamp"] * 5 + ["ood-pipe"] * 2 + ["frozen"] * 3))
+    if kind == "frozen":
+        # a writer that stalls for 8 s in the middle of what it is doing (suspended, swapped out ...): frozen by the
+        # LD_PRELOAD shim immediately before its n-th state-changing call, most of which lie inside write transactions
+        dof["slow.do"]["body"] = [stt if stt[0] != "stampgate" else ["stamp"] for stt in dof["slow.do"]["body"]]
+        others = [o for o in others if o[0] != "redo-log"] or [["redo-targets"]]
+        return {"project": proj, "hold": True, "holdkind": kind, "n": draw(st.integers(1, 130)),
+                "log": draw(st.integers(0, 1)), "others": others, "prebuild": draw(st.integers(0, 1)),
+                "invs": [], "schedule": [], "sopts": {}}
+    if kind == "ood-pipe":
+        # a query whose reader is slow: redo-ood writes more than its (4 KiB) stdout pipe holds and nobody drains it
+        nlong = draw(st.integers(26, 34))
+        longs = ["%s-%03d.q" % ("n" * 170, i) for i in range(nlong)]
+        dof["default.q.do"] = {"v": 1, "body": [["dep", 1, ["s0"]], ["out", "stdout"]]}
+        proj["targets"] = proj["targets"] + longs
+        proj["long_targets"] = longs
+        others = [o for o in others if o[0] != "redo-log"] or [["redo-targets"]]
+    return {"project": proj, "hold": True, "holdkind": kind,
+            "invs": [{"argv": build, "cwd": "", "env": {} if draw(st.integers(0, 1)) else {"REDO_LOG": "0"},
+                      "jobserver": None}],
             "others": others, "prebuild": draw(st.integers(0, 1)), "schedule": [], "sopts": {}}
 
 
+def run_ood_pipe(case, tier):
+    """redo-ood with an undrained stdout pipe while other commands start."""
+    import fcntl
+    out = hist.Outcome()
+    disk = hist.P.Disk(hist.scratch_dir("c16o"))
+    procs = []
+    holder = None
+    rfd = None
+    try:
+        disk.materialize(case["project"])
+        longs = case["project"]["long_targets"]
+        pr = runner.run_cmd(disk, ["redo-ifchange", "other", "third"] + longs, env_extra={"REDO_LOG": "0"}, timeout=120)
+        if pr.rc != 0:
+            raise runner.Inconclusive("prebuild failed: %s" % pr.text()[-300:])
+        disk.take_trace()
+        disk.write("s0", hist.P.source_content("s0", 1))
+        rfd, wfd = os.pipe()
+        try:
+            fcntl.fcntl(wfd, 1031, 4096)        # F_SETPIPE_SZ
+        except OSError:
+            pass
+        env = runner.base_env(disk, {"REDO_LOG": "0"})
+        holder = subprocess.Popen(["redo-ood"], cwd=disk.root, env=env, stdin=subprocess.DEVNULL, stdout=wfd,
+                                  stderr=subprocess.PIPE, start_new_session=True)
+        os.close(wfd)
+        # wait until it sits in write() on the full pipe
+        t_end = time.time() + 20
+        blocked = False
+        while time.time() < t_end and holder.poll() is None:
+            st_, sc, _, _ = sched.proc_state(holder.pid)
+            if st_ == "S" and sc == "1":
+                time.sleep(0.05)
+                st2, sc2, _, _ = sched.proc_state(holder.pid)
+                if st2 == "S" and sc2 == "1":
+                    blocked = True
+                    break
+            time.sleep(0.01)
+        if not blocked:
+            raise runner.Inconclusive("redo-ood did not block on its output (rc %r)" % holder.poll())
+        t0 = time.time()
+        for i, argv in enumerate(case["others"]):
+            fo = open(os.path.join(disk.ctl, "ho.%d" % i), "wb")
+            p = subprocess.Popen(argv, cwd=disk.root, env=env, stdin=subprocess.DEVNULL, stdout=fo,
+                                 stderr=subprocess.STDOUT, start_new_session=True)
+            fo.close()
+            procs.append(p)
+        problems = []
+        for i, p in enumerate(procs):
+            try:
+                p.wait(timeout=max(0.1, t0 + PATIENCE - time.time()))
+            except subprocess.TimeoutExpired:
+                pass
+            with open(os.path.join(disk.ctl, "ho.%d" % i), "rb") as f:
+                text = f.read().decode("utf-8", "replace")
+            argv = case["others"][i]
+            if p.returncode is None:
+                problems.append({"argv": argv, "symptom": "still blocked after %d s while redo-ood waits for its reader"
+                                 % PATIENCE, "text": text[-400:]})
+                continue
+            m = DBERR.search(text)
+            if m:
+                problems.append({"argv": argv, "rc": p.returncode, "symptom": m.group(0), "text": text[-600:]})
+            elif p.returncode != 0:
+                problems.append({"argv": argv, "rc": p.returncode, "symptom": "exit %d" % p.returncode,
+                                 "text": text[-600:]})
+        out.commands = 1 + len(procs)
+        out.nontrivial = True
+        out.events["c16h:commands-started-while-redo-ood-waits-for-its-reader"] += len(procs)
+        # now read what redo-ood has to say
+        data = b""
+        os.set_blocking(rfd, True)
+        while True:
+            b = os.read(rfd, 65536)
+            if not b:
+                break
+            data += b
+        holder.wait(timeout=30)
+        listed = set(data.decode("utf-8", "replace").split())
+        if holder.returncode != 0 or not set(longs) <= listed:
+            err = holder.stderr.read().decode("utf-8", "replace") if holder.stderr else ""
+            problems.append({"argv": ["redo-ood"], "rc": holder.returncode, "symptom": (DBERR.search(err) or [None])[0]
+                             or "redo-ood incomplete", "text": err[-400:], "missing": len(set(longs) - listed)})
+        if problems:
+            out.violation = {"property": "C16", "clause": "blocked-by-a-write-lock-held-across-a-slow-reader", "step": 0,
+                             "detail": {"problems": problems[:5]},
+                             "sig": {"symptom": problems[0]["symptom"], "tier": "hold", "holder": "redo-ood"}}
+        return out
+    finally:
+        for p in procs:
+            runner.kill_session(p.pid)
+        if holder is not None:
+            runner.kill_session(holder.pid)
+        if rfd is not None:
+            try:
+                os.close(rfd)
+            except OSError:
+                pass
+        import shutil
+        shutil.rmtree(disk.base, ignore_errors=True)
+
+
+FREEZE_S = 8.0
+
+
+def run_frozen(case, tier):
+    import signal
+    from .. import sut
+    from .c06stop import stopped_pids
+    out = hist.Outcome()
+    disk = hist.P.Disk(hist.scratch_dir("c16f"))
+    procs = []
+    p1 = None
+    try:
+        disk.materialize(case["project"])
+        env0 = {} if case["log"] else {"REDO_LOG": "0"}
+        if case.get("prebuild"):
+            pr = runner.run_cmd(disk, ["redo-ifchange", "top", "other", "third"], env_extra=env0)
+            if pr.rc != 0:
+                raise runner.Inconclusive("prebuild failed")
+            disk.write("s0", hist.P.source_content("s0", 1))
+            disk.write("s1", hist.P.source_content("s1", 1))
+        disk.take_trace()
+        ctr = os.path.join(disk.ctl, "ctr")
+        with open(ctr, "wb") as f:
+            f.write(b"\0" * 4096)
+        env1 = runner.base_env(disk, env0)
+        env1.update({"LD_PRELOAD": os.path.join(os.path.dirname(os.path.dirname(os.path.dirname(os.path.abspath(__file__)))),
+                                                "shim", "verifshim.so"),
+                     "RV_SHIM_EXE": os.path.realpath(os.path.join(sut.BIN_DIR, "redo")), "RV_SHIM_CTR": ctr,
+                     "RV_SHIM_ROOT": disk.root, "RV_SHIM_WRITES": "1", "RV_SHIM_STOP_AT": str(case["n"])})
+        o1 = open(os.path.join(disk.ctl, "out1"), "wb")
+        p1 = subprocess.Popen(["redo-ifchange", "top", "other", "third"], cwd=disk.root, env=env1,
+                              stdin=subprocess.DEVNULL, stdout=o1, stderr=subprocess.STDOUT, start_new_session=True)
+        o1.close()
+        t0 = time.time()
+        frozen = []
+        while time.time() - t0 < 20 and p1.poll() is None:
+            frozen = stopped_pids(p1.pid)
+            if frozen:
+                break
+            time.sleep(0.002)
+        if not frozen:
+            p1.wait(timeout=30)
+            out.events["c16h:freeze-point-beyond-the-end"] += 1
+            return out
+        t1 = time.time()
+        env = runner.base_env(disk, {"REDO_LOG": "0"})
+        for i, argv in enumerate(case["others"]):
+            fo = open(os.path.join(disk.ctl, "ho.%d" % i), "wb")
+            p = subprocess.Popen(argv, cwd=disk.root, env=env, stdin=subprocess.DEVNULL, stdout=fo,
+                                 stderr=subprocess.STDOUT, start_new_session=True)
+            fo.close()
+            procs.append(p)
+        blocked = False
+        while time.time() - t1 < FREEZE_S:
+            if all(p.poll() is not None for p in procs):
+                break
+            time.sleep(0.02)
+        else:
+            blocked = True
+        for q in frozen:
+            try:
+                os.kill(q, signal.SIGCONT)
+            except OSError:
+                pass
+        problems = []
+        for i, p in enumerate(procs):
+            try:
+                p.wait(timeout=max(0.1, t1 + PATIENCE - time.time()))
+            except subprocess.TimeoutExpired:
+                pass
+            with open(os.path.join(disk.ctl, "ho.%d" % i), "rb") as f:
+                text = f.read().decode("utf-8", "replace")
+            argv = case["others"][i]
+            if p.returncode is None:
+                problems.append({"argv": argv, "symptom": "still blocked %d s after the writer went on" % PATIENCE})
+                continue
+            m = DBERR.search(text)
+            if m:
+                problems.append({"argv": argv, "rc": p.returncode, "symptom": m.group(0), "text": text[-600:]})
+            elif p.returncode != 0:
+                problems.append({"argv": argv, "rc": p.returncode, "symptom": "exit %d" % p.returncode,
+                                 "text": text[-600:]})
+        try:
+            p1.wait(timeout=40)
+        except subprocess.TimeoutExpired:
+            raise runner.Inconclusive("the frozen writer did not finish")
+        with open(os.path.join(disk.ctl, "out1"), "rb") as f:
+            t1text = f.read().decode("utf-8", "replace")
+        out.commands = 1 + len(procs)
+        out.nontrivial = True
+        out.events["c16h:writer-frozen-before-a-state-changing-call"] += 1
+        if blocked:
+            out.events["c16h:writer-frozen-while-others-had-to-wait-%ds" % int(FREEZE_S)] += 1
+        m1 = DBERR.search(t1text)
+        if p1.returncode != 0 and m1:
+            problems.append({"argv": ["redo-ifchange", "top", "other", "third"], "rc": p1.returncode,
+                             "symptom": m1.group(0), "text": t1text[-600:]})
+        if problems:
+            out.violation = {"property": "C16", "clause": "failed-although-the-writer-only-stalled", "step": 0,
+                             "detail": {"n": case["n"], "problems": problems[:5]},
+                             "sig": {"symptom": problems[0]["symptom"], "tier": "hold", "holder": "frozen-writer"}}
+        return out
+    finally:
+        for p in procs:
+            runner.kill_session(p.pid)
+        if p1 is not None:
+            runner.kill_session(p1.pid)
+        import shutil
+        shutil.rmtree(disk.base, ignore_errors=True)
+
+
 def run_case(case, tier):
+    if case.get("holdkind") == "ood-pipe":
+        return run_ood_pipe(case, tier)
+    if case.get("holdkind") == "frozen":
+        return run_frozen(case, tier)
     out = hist.Outcome()
     r = sched.SchedRunner(case, tag="c16h")
     procs = []
